@@ -436,11 +436,16 @@ def _parse_single_ix_experiment_3_0(struct: ir.Struct) -> SqwIXExperiment:
         (e,) = candidate_efix
         efix = sc.scalar(e.value, unit="meV")
 
+    emode = EnergyMode(g("emode"))
     raw_en = _get_struct_field(struct, "en").data
     if isinstance(raw_en, np.ndarray):
-        en = raw_en.squeeze()
+        # Direct mode stores a single row, indirect mode one row per detector.
+        en = raw_en.squeeze() if emode == EnergyMode.direct else raw_en
     else:
         en = [e.value for e in raw_en]
+    en_dims = (
+        ["energy_transfer"] if np.ndim(en) == 1 else ["detector", "energy_transfer"]
+    )
 
     angle_unit = sc.Unit("deg" if g("angular_is_degree") else "rad")
 
@@ -449,8 +454,8 @@ def _parse_single_ix_experiment_3_0(struct: ir.Struct) -> SqwIXExperiment:
         filepath=g("filepath"),
         run_id=int(g("run_id")) - 1,
         efix=efix,
-        emode=EnergyMode(g("emode")),
-        en=sc.array(dims=["energy_transfer"], values=en, unit="meV"),
+        emode=emode,
+        en=sc.array(dims=en_dims, values=en, unit="meV"),
         psi=sc.scalar(g("psi"), unit=angle_unit),
         u=sc.vector(_get_struct_field(struct, "u").data),
         v=sc.vector(_get_struct_field(struct, "v").data),
